@@ -46,6 +46,13 @@ def jHeapOp (h : Heap) (j : Json) : Except String Op := do
   | "set_counts" => return .setCounts (← refOf h (← jNat (← jField j "obj"))) (← jCnt (← jField j "counts"))
   | "setop" => return .setOp (← jSetOp (← jField j "op")) (← refOf h (← jNat (← jField j "a"))) (← refOf h (← jNat (← jField j "b")))
   | "addsub" => return .addSub (← jInt (← jField j "sign")) (← refOf h (← jNat (← jField j "a"))) (← refOf h (← jNat (← jField j "b")))
+  | "scalar" =>
+    let o ← match ← jStr (← jField j "op") with
+      | "mul" => pure 0 | "div" => pure 1 | "floordiv" => pure 2 | s => .error s!"bad scalar op {s}"
+    return .scalar o (← refOf h (← jNat (← jField j "a"))) (← jRat (← jField j "x"))
+  | "batch" =>
+    let rs ← (← jList jNat (← jField j "objs")).mapM (refOf h)
+    return .batch (← jBool (← jField j "mean")) rs (← jOpt (jList jRat) (jFieldD j "weights"))
   | s => .error s!"bad heap op {s}"
 
 def optJ {α} (f : α → Json) : Option α → Json | none => .null | some a => f a
